@@ -69,8 +69,11 @@ impl Action {
 #[derive(Clone, Debug, Hash, PartialEq, Eq, Serialize, Deserialize, Default)]
 pub struct PvSpec {
     pub name: String,
+    #[serde(default)]
     pub aliases: Vec<String>,
+    #[serde(default)]
     pub hide: bool,
+    #[serde(default)]
     pub help: Option<String>,
 }
 
